@@ -24,6 +24,7 @@ import threading as mt
 
 from .harness import rp, ru, rps, rpc, NullLog, NullProf
 from .        import memzmq
+from .        import boot
 
 import radical.pilot.agent.scheduler.base        as m_sbase     # noqa
 import radical.pilot.agent.resource_manager.base as m_rmbase    # noqa
@@ -191,6 +192,14 @@ class AgentEnv(object):
                                           'addr_sub': 'mem://agent/%s' % p}
 
         n_agents = layout.get('agent_nodes', 0)
+        n_svc    = 1 if layout.get('service_nodes') else 0
+        if n_svc:
+            # a ./services file in the agent sandbox makes the RM set one node
+            # aside for services (ResourceManager._filter_nodes)
+            with open('services', 'w') as fout:
+                fout.write('# services\n')
+        elif os.path.exists('services'):
+            os.unlink('services')
         agents   = {'agent.%d' % (i + 1): {'target': 'node'}
                     for i in range(n_agents)}
 
@@ -207,10 +216,10 @@ class AgentEnv(object):
             'resource_sandbox' : os.path.dirname(self.workdir),
             'session_sandbox'  : self.workdir,
             'pilot_sandbox'    : self.workdir,
-            'nodes'            : layout['nodes'] + n_agents,
-            'cores'            : (layout['nodes'] + n_agents) *
+            'nodes'            : layout['nodes'] + n_agents + n_svc,
+            'cores'            : (layout['nodes'] + n_agents + n_svc) *
                                  layout['cores_per_node'],
-            'gpus'             : (layout['nodes'] + n_agents) *
+            'gpus'             : (layout['nodes'] + n_agents + n_svc) *
                                  layout.get('gpus_per_node', 0),
             'backup_nodes'     : 0,
             'cores_per_node'   : layout['cores_per_node'],
@@ -256,6 +265,7 @@ class AgentEnv(object):
         self.rm = rp.agent.ResourceManager.create(rm, cfg, rcfg, NullLog(),
                                                   NullProf())
         self.rm_info = self.rm.info
+        boot.reap_env_children()
 
     # --------------------------------------------------------------------------
     def ccfg(self, uid, kind):
@@ -286,6 +296,7 @@ class AgentEnv(object):
     def close(self):
         self.net.close()
         memzmq.uninstall()
+        boot.reap_env_children()
 
 
 # ------------------------------------------------------------------------------
